@@ -110,7 +110,13 @@ func c17SP(variant int) h.SPConfig {
 	sp := h.BaseSP()
 	sp.Store = []h.CertRef{{Key: "T1", Window: "wide"}, {Key: "T2", Window: "wide"}}
 	sp.SignRequests = true
-	switch variant % 6 {
+	switch variant % 8 {
+	case 6: // IdP store lists a not-yet-valid certificate (pre-published roll-over) BEFORE the current ones
+		sp.Store = []h.CertRef{{Key: "T1", Window: "future"}, {Key: "T1", Window: "wide"}, {Key: "T2", Window: "wide"}}
+		sp.Enc = h.KeyCfg{Mode: "tls", Field: h.CertRef{Key: "E1", Window: "wide"}}
+	case 7: // ... an expired one first, then current ones; setter keys
+		sp.Store = []h.CertRef{{Key: "T2", Window: "past"}, {Key: "T1", Window: "wide"}, {Key: "T1", Window: "future"}, {Key: "T2", Window: "wide"}}
+		sp.Enc = h.KeyCfg{Mode: "setter", Setter: h.CertRef{Key: "E1", Window: "wide"}}
 	case 4: // encryption certificate outside its window, validation of it switched on, generic key store
 		sp.Enc = h.KeyCfg{Mode: "custom", Field: h.CertRef{Key: "E1", Window: "past"}}
 		sp.ValidateEncCert = true
@@ -199,9 +205,27 @@ type held struct {
 	snap string
 }
 
+type heldDoc struct {
+	what string
+	d    *etree.Document
+	snap string
+}
+
 type holder struct {
 	mu   sync.Mutex
 	list []held
+	docs []heldDoc
+}
+
+// keepDoc holds a returned document (not yet serialised by its caller) together with its present rendering.
+func (hd *holder) keepDoc(what string, d *etree.Document) {
+	if hd == nil || d == nil {
+		return
+	}
+	s, _ := d.WriteToString()
+	hd.mu.Lock()
+	hd.docs = append(hd.docs, heldDoc{what, d, s})
+	hd.mu.Unlock()
 }
 
 func (hd *holder) keep(what string, b []byte) {
@@ -222,6 +246,11 @@ func (hd *holder) changed() string {
 			return x.what
 		}
 	}
+	for _, x := range hd.docs {
+		if s, _ := x.d.WriteToString(); s != x.snap {
+			return x.what + "-document"
+		}
+	}
 	return ""
 }
 
@@ -234,6 +263,7 @@ func (op C17Op) runHold(sp *saml2.SAMLServiceProvider, hd *holder) string {
 		if err != nil {
 			return "error: " + err.Error()
 		}
+		hd.keepDoc(op.Kind, d)
 		s, _ := d.WriteToString()
 		return blank(s)
 	}
@@ -261,6 +291,7 @@ func (op C17Op) runHold(sp *saml2.SAMLServiceProvider, hd *holder) string {
 		if err != nil {
 			return "error: " + err.Error()
 		}
+		hd.keepDoc(op.Kind, d)
 		u, err := sp.BuildAuthURLRedirect(op.Arg, d)
 		if err != nil {
 			return "error: " + err.Error()
@@ -271,6 +302,7 @@ func (op C17Op) runHold(sp *saml2.SAMLServiceProvider, hd *holder) string {
 		if err != nil {
 			return "error: " + err.Error()
 		}
+		hd.keepDoc(op.Kind, d)
 		u, err := sp.BuildLogoutURLRedirect(op.Arg, d)
 		if err != nil {
 			return "error: " + err.Error()
@@ -297,6 +329,7 @@ func (op C17Op) runHold(sp *saml2.SAMLServiceProvider, hd *holder) string {
 		if err != nil {
 			return "error: " + err.Error()
 		}
+		hd.keepDoc(op.Kind, d)
 		var b []byte
 		switch op.Kind {
 		case "auth-post-doc":
@@ -433,7 +466,7 @@ func genC17Ops(t *rapid.T, n int) []C17Op {
 // ---- Part A: sequential isolation / purity ----------------------------------------------------
 
 func genC17Seq(t *rapid.T) C17Case {
-	return C17Case{SP: c17SP(rapid.IntRange(0, 5).Draw(t, "spVariant")), Seq: true, Ops: [][]C17Op{genC17Ops(t, rapid.IntRange(1, 12).Draw(t, "nOps"))}}
+	return C17Case{SP: c17SP(rapid.IntRange(0, 7).Draw(t, "spVariant")), Seq: true, Ops: [][]C17Op{genC17Ops(t, rapid.IntRange(1, 12).Draw(t, "nOps"))}}
 }
 
 func checkC17Seq(c C17Case) h.Outcome {
@@ -476,7 +509,7 @@ func checkC17Seq(c C17Case) h.Outcome {
 // ---- Part B: concurrent use of a FRESH SP (first-use race on the lazy signing context), under -race ----
 
 func genC17Conc(t *rapid.T) C17Case {
-	c := C17Case{SP: c17SP(rapid.IntRange(0, 5).Draw(t, "spVariant"))}
+	c := C17Case{SP: c17SP(rapid.IntRange(0, 7).Draw(t, "spVariant"))}
 	g := rapid.IntRange(2, 16).Draw(t, "goroutines")
 	for i := 0; i < g; i++ {
 		c.Ops = append(c.Ops, genC17Ops(t, rapid.IntRange(1, 4).Draw(t, "nOps")))
@@ -670,7 +703,7 @@ var (
 	encSetterChoices = []*h.CertRef{nil, {Key: "E1", Window: "wide"}, {Key: "E2", Window: "wide"}, {Key: "E1", Window: "narrow"}}
 	sigFieldChoices  = []*h.CertRef{nil, {Key: "S1", Window: "wide"}, {Key: "S2", Window: "wide"}}
 	sigSetterChoices = []*h.CertRef{nil, {Key: "S2", Window: "wide"}, {Key: "S1", Window: "wide"}}
-	reconfFields     = []string{"clock", "clock", "store", "store", "encField", "encField", "encSetter", "validateEnc", "skip", "allowMissing", "acs", "issuer", "audience", "slo", "maxSize", "sigField", "sigSetter"}
+	reconfFields     = []string{"clock", "clock", "store", "store", "encField", "encField", "encSetter", "validateEnc", "skip", "allowMissing", "acs", "issuer", "audience", "slo", "maxSize", "sigField", "sigSetter", "idpSSO", "idpSLO", "spIssuer", "nameIDFormat", "forceAuthn", "signRequests"}
 )
 
 func fieldStore(kind string, c h.CertRef) dsig.X509KeyStore {
@@ -774,6 +807,36 @@ func (st *spState) apply(field string, v int, sp *saml2.SAMLServiceProvider) {
 		if sp != nil {
 			sp.MaximumDecompressedBodySize = st.cfg.MaxSize
 		}
+	case "idpSSO":
+		st.cfg.IdPSSO = []string{"https://idp.example.com/sso", "https://idp-b.example.com/sso?tenant=b&realm=x", "https://idp.example.com/sso?tenant=a", "https://other-idp.example.com/login"}[v%4]
+		if sp != nil {
+			sp.IdentityProviderSSOURL = st.cfg.IdPSSO
+		}
+	case "idpSLO":
+		st.cfg.IdPSLO = []string{"https://idp.example.com/slo", "https://idp-b.example.com/slo?tenant=b", "https://other-idp.example.com/logout", ""}[v%4]
+		if sp != nil {
+			sp.IdentityProviderSLOURL = st.cfg.IdPSLO
+		}
+	case "spIssuer":
+		st.cfg.SPIssuer = []string{"https://sp.example.com/metadata", "urn:sp:other", ""}[v%3]
+		if sp != nil {
+			sp.ServiceProviderIssuer = st.cfg.SPIssuer
+		}
+	case "nameIDFormat":
+		st.cfg.NameIDFormat = []string{"", saml2.NameIdFormatEmailAddress, saml2.NameIdFormatPersistent}[v%3]
+		if sp != nil {
+			sp.NameIdFormat = st.cfg.NameIDFormat
+		}
+	case "forceAuthn":
+		st.cfg.ForceAuthn = v%2 == 0
+		if sp != nil {
+			sp.ForceAuthn = st.cfg.ForceAuthn
+		}
+	case "signRequests":
+		st.cfg.SignRequests = v%2 == 0
+		if sp != nil {
+			sp.SignAuthnRequests = st.cfg.SignRequests
+		}
 	}
 }
 
@@ -807,7 +870,7 @@ func c17EncryptedInputs() []int {
 
 func genC17Reconf(t *rapid.T) C17Reconf {
 	// three families of histories: key rotation (no signing), validation-side re-configuration, everything
-	return genReconfFocus(t, rapid.SampledFrom([]string{"keys", "keys", "validation", "all"}).Draw(t, "focus"))
+	return genReconfFocus(t, rapid.SampledFrom([]string{"keys", "keys", "validation", "endpoints", "all"}).Draw(t, "focus"))
 }
 
 // genEncRotation / genSigRotation: histories that only rotate the decryption (signing) key and its validation
@@ -822,6 +885,15 @@ func genReconfFocus(t *rapid.T, focus string) C17Reconf {
 	case "keys":
 		fields = []string{"sigField", "sigField", "sigSetter", "encField", "encField", "encSetter", "validateEnc", "clock"}
 		kinds = []string{"metadata", "metadata-slo", "signing-cert", "signing-cert", "validate", "validate", "retrieve"}
+	case "endpoints":
+		fields = []string{"idpSSO", "idpSSO", "idpSLO", "idpSLO", "acs", "slo", "spIssuer", "issuer", "nameIDFormat", "forceAuthn", "signRequests", "clock"}
+		kinds = []string{"auth-url", "auth-url-redirect", "logout-url", "auth-post", "auth-post-doc", "logout-post", "logout-resp-post", "authn-doc", "logout-req", "logout-resp", "metadata", "metadata-slo"}
+	case "redirect":
+		fields = []string{"idpSSO", "idpSSO", "idpSLO", "idpSLO", "signRequests", "spIssuer"}
+		kinds = []string{"auth-url", "auth-url-redirect", "logout-url"}
+	case "post":
+		fields = []string{"idpSSO", "idpSSO", "idpSLO", "idpSLO", "signRequests", "spIssuer"}
+		kinds = []string{"auth-post", "auth-post-doc", "logout-post", "logout-resp-post"}
 	case "enc-keys":
 		fields = []string{"encField", "encField", "encSetter", "validateEnc", "clock"}
 		kinds = []string{"validate", "validate", "retrieve", "metadata"}
@@ -856,6 +928,7 @@ func checkC17Reconf(c C17Reconf) h.Outcome {
 	st.cfg.SignRequests = true
 	shared := st.fresh()
 	signed := false
+	hd := &holder{}
 	for i, s := range c.Steps {
 		if s.Reconf != "" && !(signed && keyFields[s.Reconf]) {
 			st.apply(s.Reconf, s.V, shared)
@@ -864,11 +937,19 @@ func checkC17Reconf(c C17Reconf) h.Outcome {
 		if st.encField == 0 && st.encSetter == 0 && (signingOps[s.Op.Kind] || s.Op.Kind == "metadata" || s.Op.Kind == "metadata-slo" || s.Op.Kind == "signing-cert") && st.sigField == 0 && st.sigSetter == 0 {
 			continue // no key at all: signing without a key is outside the domain
 		}
-		got := s.Op.run(shared)
+		got := s.Op.runHold(shared, hd)
 		want := s.Op.run(st.fresh())
 		o.Classes = append(o.Classes, "op:"+s.Op.Kind)
+		if w := hd.changed(); w != "" {
+			o.Violation = h.V("earlier-result-modified/"+w, "step %d (%s): a result returned earlier by %s was modified by a later call", i+1, s.Op.Kind, w)
+			return o
+		}
 		if got != want {
 			o.Violation = h.V("stale-after-reconfiguration/"+s.Op.Kind, "step %d (%s after re-assigning %q): the long-lived instance returns something else than a fresh instance with the same configuration\n long-lived: %.500s\n      fresh: %.500s\n steps: %+v", i+1, s.Op.Kind, s.Reconf, got, want, c.Steps[:i+1])
+			return o
+		}
+		if a, b := snapshot(shared), snapshot(st.fresh()); a != b {
+			o.Violation = h.V("configuration-modified/"+s.Op.Kind, "step %d (%s): the exported configuration of the long-lived instance no longer equals what was assigned:\n long-lived: %s\n   assigned: %s", i+1, s.Op.Kind, a, b)
 			return o
 		}
 		if signingOps[s.Op.Kind] {
@@ -881,6 +962,17 @@ func checkC17Reconf(c C17Reconf) h.Outcome {
 
 func TestC17_PReconf(t *testing.T)      { h.RunProp(t, "C17.reconf", genC17Reconf, checkC17Reconf) }
 func TestC17_ReplayReconf(t *testing.T) { h.RunReplay(t, "C17.reconf", checkC17Reconf) }
+
+func genRedirectReconf(t *rapid.T) C17Reconf { return genReconfFocus(t, "redirect") }
+func genPostReconf(t *rapid.T) C17Reconf     { return genReconfFocus(t, "post") }
+func genEndpointReconf(t *rapid.T) C17Reconf { return genReconfFocus(t, "endpoints") }
+
+func TestC14_PReconf(t *testing.T)      { h.RunProp(t, "C14.reconf", genRedirectReconf, checkC17Reconf) }
+func TestC14_ReplayReconf(t *testing.T) { h.RunReplay(t, "C14.reconf", checkC17Reconf) }
+func TestC16_PReconf(t *testing.T)      { h.RunProp(t, "C16.reconf", genPostReconf, checkC17Reconf) }
+func TestC16_ReplayReconf(t *testing.T) { h.RunReplay(t, "C16.reconf", checkC17Reconf) }
+func TestC15_PReconf(t *testing.T)      { h.RunProp(t, "C15.reconf", genEndpointReconf, checkC17Reconf) }
+func TestC15_ReplayReconf(t *testing.T) { h.RunReplay(t, "C15.reconf", checkC17Reconf) }
 
 func TestC11_PRotate(t *testing.T)      { h.RunProp(t, "C11.rotate", genEncRotation, checkC17Reconf) }
 func TestC11_ReplayRotate(t *testing.T) { h.RunReplay(t, "C11.rotate", checkC17Reconf) }
